@@ -44,6 +44,17 @@ func runC12(r *Run) {
 	c12JSONClient(r)
 	c12ClientErrors(r)
 	c12Decoder(r)
+
+	// no server-chosen header or status can make a submission misbehave: the retry
+	// loop and the single-shot POST (rule sets of C13.R1, R2, R5)
+	r.Shared("C12.R6", func() {
+		if fn := r.Fn("(*jsonclient.JSONClient).PostAndParseWithRetry"); fn != nil {
+			c13Loop(r, fn)
+		}
+		if fn := r.Fn(c13Post); fn != nil {
+			c13PostRule(r, fn)
+		}
+	})
 }
 
 // ---- R1 ---------------------------------------------------------------------------
